@@ -46,9 +46,10 @@ def bounds_hold(self) -> bool:
     v, lo, hi = self.get(), self.min_bound, self.max_bound
     if not isnum(v):
         return True
-    if lo is not None and isnum(lo) and v < lo:
+    # "within its bounds" is lo <= v <= hi: a NaN value, or a NaN bound, is within nothing
+    if lo is not None and isnum(lo) and not v >= lo:
         return False
-    if hi is not None and isnum(hi) and v > hi:
+    if hi is not None and isnum(hi) and not v <= hi:
         return False
     return True
 
@@ -290,6 +291,9 @@ def run(ctx):
                             r_form = rng.random()
                             if r_form < 0.2:
                                 v = "text"
+                            elif r_form < 0.3:
+                                v = float("nan")            # numeric type, but inside no interval
+                                ctx.bucket("nan_offered_as_value_of_bounded_parameter")
                             elif r_form < 0.5:
                                 # the same out-of-bounds request as another numeric type (all are numbers.Number)
                                 far = int(np.ceil(p.max_bound)) + 2 if p.max_bound is not None else int(np.floor(p.min_bound)) - 2
@@ -326,8 +330,12 @@ def run(ctx):
                                 nv = None
                         else:
                             nv = (v + 0.5) if which == "min_bound" else (v - 0.5)
-                            if rng.random() < 0.2:
+                            r_b = rng.random()
+                            if r_b < 0.2:
                                 nv = "x"
+                            elif r_b < 0.35:
+                                nv = float("nan")           # not a bound at all: no value lies on either side of it
+                                ctx.bucket("nan_offered_as_bound")
                         setattr(p, which, nv)
                         trace.append([step, which, nv])
                 elif step == "rewrite":
